@@ -378,6 +378,8 @@ func gApplySpec(name string, sp gSpec, old *v1.Service) *v1.Service {
 	if old != nil {
 		s.ResourceVersion = old.ResourceVersion
 		s.Status = *old.Status.DeepCopy()
+		s.Finalizers = append([]string{}, old.Finalizers...) // a terminating Service stays terminating
+		s.DeletionTimestamp = old.DeletionTimestamp
 		if v, ok := old.Annotations[AnnotationIPAllocateFromPool]; ok {
 			s.Annotations = map[string]string{AnnotationIPAllocateFromPool: v}
 		}
@@ -989,12 +991,53 @@ func hRunHistory(t *testing.T, out *vOut, r *rand.Rand, id int) {
 		record(cCtor("UPut", cNi(gNum(gNsvc, name)), cSvcObj(obj, sp)), hEvent{Kind: "put", Svc: name, Spec: &sp})
 		out.Stat("ev_put", 1)
 	}
+	// the Service is deleted but kept by a finalizer: it still exists, holds its address and is an ordinary Service for
+	// MetalLB (the model sees an update that changes nothing)
+	doTerminate := func(name string) {
+		s := w.get(name)
+		if s == nil || s.DeletionTimestamp != nil {
+			return
+		}
+		s.Finalizers = append(s.Finalizers, "verif.example/hold")
+		if err := w.cl.Update(context.TODO(), s); err != nil {
+			t.Fatalf("api finalizer: %v", err)
+		}
+		if err := w.cl.Delete(context.TODO(), w.get(name)); err != nil {
+			t.Fatalf("api delete (terminating): %v", err)
+		}
+		obj := w.get(name)
+		if obj == nil || obj.DeletionTimestamp == nil {
+			out.Stat("terminate_not_supported_by_fake_client", 1)
+			if obj == nil { // the fake client removed it: treat as a deletion
+				delete(w.specs, name)
+				disturbed[name], disturbedCrash[name] = true, true
+				w.queue[name] = true
+				record(cCtor("UDel", cNi(gNum(gNsvc, name))), hEvent{Kind: "del", Svc: name})
+			}
+			return
+		}
+		sp := w.specs[name]
+		w.queue[name] = true
+		w.syncs, w.order = nil, nil
+		record(cCtor("UPut", cNi(gNum(gNsvc, name)), cSvcObj(obj, sp)), hEvent{Kind: "put", Svc: name, Spec: &sp})
+		out.Stat("ev_terminate", 1)
+	}
 	doDel := func(name string) {
 		s := w.get(name)
 		if s == nil {
 			return
 		}
-		if err := w.cl.Delete(context.TODO(), s); err != nil {
+		if s.DeletionTimestamp != nil {
+			s.Finalizers = nil
+			if err := w.cl.Update(context.TODO(), s); err != nil {
+				t.Fatalf("api finalizer removal: %v", err)
+			}
+			if left := w.get(name); left != nil {
+				if err := w.cl.Delete(context.TODO(), left); err != nil {
+					t.Fatalf("api delete: %v", err)
+				}
+			}
+		} else if err := w.cl.Delete(context.TODO(), s); err != nil {
 			t.Fatalf("api delete: %v", err)
 		}
 		delete(w.specs, name)
@@ -1517,6 +1560,83 @@ func hRunHistory(t *testing.T, out *vOut, r *rand.Rand, id int) {
 			checkQuiescent()
 		}
 		out.Stat("directed_failed_write_scenarios", 1)
+	} else if id%8 == 4 {
+		four := gSpec{LB: true, Fam: "ipv4", ClusterOK: true, Pol: "single", Ports: []int{0}}
+		switch r.Intn(3) {
+		case 0:
+			// directed: a dual-stack Service gives back ONE of its two addresses (it becomes single-stack); the
+			// Service waiting for that family must get it in the same settling period
+			doPools([]gPool{{Name: "pa", CIDRs: []string{"10.0.0.0/30", "fc00:1::/128"}, Auto: true}})
+			doReload(-1)
+			dual := gSpec{LB: true, Fam: "dual", ClusterOK: true, Pol: "require", Ports: []int{1}}
+			doPut("ns1/a", dual)
+			doSvc("ns1/a", false)
+			doPut("ns1/b", gSpec{LB: true, Fam: "ipv6", ClusterOK: true, Pol: "single", First6: true, Ports: []int{2}})
+			doSvc("ns1/b", false)
+			if drain() {
+				checkQuiescent()
+			}
+			if r.Intn(2) == 0 {
+				dual.Fam, dual.Pol = "ipv4", "single"
+			} else {
+				dual.Fam, dual.Pol, dual.First6 = "ipv6", "single", true // ... or keeps the IPv6 one: the IPv4 waiter is served
+				doPut("ns1/b", gSpec{LB: true, Fam: "ipv4", ClusterOK: true, Pol: "single", Ports: []int{2}, WantKind: "spec", WantIPs: []string{"10.0.0.0"}})
+				doSvc("ns1/b", false)
+			}
+			doPut("ns1/a", dual)
+			doSvc("ns1/a", false)
+			if drain() {
+				checkQuiescent()
+			}
+			out.Stat("directed_dualstack_gives_back_one_scenarios", 1)
+		case 1:
+			// directed: a Service holding an address gets a malformed address request; after a restart its recorded
+			// address must still be registered before anybody else is served
+			doPools([]gPool{{Name: "pa", CIDRs: []string{"10.0.0.0/30"}, Auto: true}})
+			doReload(-1)
+			doPut("ns1/a", four)
+			doSvc("ns1/a", false)
+			if drain() {
+				checkQuiescent()
+			}
+			bad := four
+			if r.Intn(2) == 0 {
+				bad.WantKind, bad.WantIPs = "both", []string{"10.0.0.0"}
+			} else {
+				bad.WantKind, bad.WantIPs = "invalid", []string{"not-an-ip"}
+			}
+			doPut("ns1/a", bad)
+			doSvc("ns1/a", false)
+			doCrash()
+			doPut("ns1/b", gSpec{LB: true, Fam: "ipv4", ClusterOK: true, Pol: "single", Ports: []int{1}})
+			doPools([]gPool{{Name: "pa", CIDRs: []string{"10.0.0.0/30"}, Auto: true}})
+			if drain() {
+				checkQuiescent()
+			}
+			out.Stat("directed_malformed_request_restart_scenarios", 1)
+		default:
+			// directed: a Service kept terminating by a finalizer still holds its address across a restart
+			doPools([]gPool{{Name: "pa", CIDRs: []string{"10.0.0.0/30"}, Auto: true}})
+			doReload(-1)
+			doPut("ns1/a", four)
+			doSvc("ns1/a", false)
+			keep := four
+			keep.Ports = []int{1}
+			doPut("ns1/b", keep)
+			doSvc("ns1/b", false)
+			if drain() {
+				checkQuiescent()
+			}
+			doTerminate("ns1/a")
+			doSvc("ns1/a", false)
+			doCrash()
+			doPut("ns2/c", gSpec{LB: true, Fam: "ipv4", ClusterOK: true, Pol: "single", Ports: []int{2}})
+			doPools([]gPool{{Name: "pa", CIDRs: []string{"10.0.0.0/30"}, Auto: true}})
+			if drain() {
+				checkQuiescent()
+			}
+			out.Stat("directed_terminating_restart_scenarios", 1)
+		}
 	} else if id%8 == 5 {
 		// directed: one address, a holder using one port number on two protocols, a sharer colliding on one of them
 		doPools([]gPool{{Name: "pa", CIDRs: []string{"10.0.5.6/32"}, Auto: true}})
@@ -1677,7 +1797,11 @@ func hRunHistory(t *testing.T, out *vOut, r *rand.Rand, id int) {
 			}
 			doPut(name, sp)
 		case x < 34:
-			doDel(name)
+			if r.Intn(3) == 0 {
+				doTerminate(name)
+			} else {
+				doDel(name)
+			}
 		case x < 42:
 			np := gGenPools(r)
 			if r.Intn(3) == 0 && len(w.pools) > 0 { // same names and ranges, one attribute of one pool edited
